@@ -21,39 +21,42 @@ theorem filter_partition_perm {α : Type} (p : α → Bool) (l : List α) :
     · simp only [List.filter_cons, hp, if_true, Bool.not_true, Bool.false_eq_true, if_false, List.cons_append]
       exact List.Perm.cons a ih
 
-/-- PARTIAL (Dom = distinct bare names): every definition is the subject of exactly one event —
-    it is represented in its module's bindings, or it is the subject of a generator warning, or of a
-    validator warning. Nothing is lost, nothing is duplicated; any number of modules and definitions. -/
-theorem C10_accounting_partial (validate : Def β → Bool) (gen : BState → Def β → Option String) (st : BState)
-    (ds : List (Def β)) (hn : (ds.map (·.name)).Nodup) :
+/-- FULL: every definition is the subject of exactly one event — it is represented in its module's
+    bindings, or it is the subject of a generator warning, of a validator warning, or of the warning that it
+    was replaced by a later definition of the same bare name. Nothing is lost, nothing is duplicated; any
+    number of modules and definitions, any names (equal ones included). -/
+theorem C10_accounting (validate : Def β → Bool) (gen : BState → Def β → Option String) (st : BState)
+    (ds : List (Def β)) :
     ((compile validate gen st ds).map Ev.subject).Perm (ds.map (·.name)) := by
-  have hk : (SMap.keys (ds.map fun d => (d.name, d))).Nodup := by
-    have e : SMap.keys (ds.map fun d => (d.name, d)) = ds.map (·.name) := by
-      simp only [SMap.keys, List.map_map]; rfl
-    rw [e]; exact hn
-  have hm : ((index ds).map (·.2)).Perm ds := by
-    have := (ofList_perm (ds.map fun d => (d.name, d)) hk).map (·.2)
-    have e : (ds.map fun d => (d.name, d)).map (·.2) = ds := by
-      simp only [List.map_map]; exact List.map_id' ds
-    rw [e] at this; exact this
   simp only [compile, generateAll, List.map_append, List.map_map]
   rw [generateAll_subjects]
   simp only [List.map_nil, List.nil_append]
-  have h1 := (groupByModule_perm (((index ds).map (·.2)).filter validate)).map (·.name)
-  have h2 : ((((index ds).map (·.2)).filter fun d => !validate d).map (Ev.subject ∘ fun d => Ev.valWarn d.name)) =
-      (((index ds).map (·.2)).filter fun d => !validate d).map (·.name) := by
+  have h1 := (groupByModule_perm (((indexW ds).1.map (·.2)).filter validate)).map (·.name)
+  have h2 : ((((indexW ds).1.map (·.2)).filter fun d => !validate d).map (Ev.subject ∘ fun d => Ev.valWarn d.name)) =
+      (((indexW ds).1.map (·.2)).filter fun d => !validate d).map (·.name) := by
     apply List.map_congr_left; intro d _; rfl
-  rw [h2]
-  refine (List.Perm.append_right _ h1).trans ?_
-  rw [← List.map_append]
-  exact ((filter_partition_perm validate _).trans hm).map _
+  have h3 : ((indexW ds).2.map (Ev.subject ∘ fun d => Ev.replWarn d.hdr.name d.name)) = (indexW ds).2.map (·.name) := by
+    apply List.map_congr_left; intro d _; rfl
+  rw [h2, h3]
+  refine ((List.Perm.append_right _ h1).append_right _).trans ?_
+  -- valid ++ replaced ++ invalid  ~  (valid ++ invalid) ++ replaced  ~  map ++ replaced  ~  ds
+  rw [List.append_assoc]
+  refine (List.Perm.append_left _ List.perm_append_comm).trans ?_
+  rw [← List.append_assoc, ← List.map_append, ← List.map_append]
+  exact (((filter_partition_perm validate _).append_right _).trans (indexW_perm ds)).map _
 
-/-- FULL statement (false): two modules defining the same bare name — the earlier one vanishes
-    without any event (finding class C10_bare_name_collision). -/
-theorem C10_collision_counterexample :
+/-- the corollary the first version of this file proved under the hypothesis of distinct names -/
+theorem C10_accounting_distinct (validate : Def β → Bool) (gen : BState → Def β → Option String) (st : BState)
+    (ds : List (Def β)) (_hn : (ds.map (·.name)).Nodup) :
+    ((compile validate gen st ds).map Ev.subject).Perm (ds.map (·.name)) := C10_accounting validate gen st ds
+
+/-- two modules defining the same bare name: the earlier definition is not represented, and a warning says so
+    (before fix `a96216a` it vanished without any event: finding class C10_bare_name_collision, now `fixed`). -/
+theorem C10_collision_reported :
     let a : Def Unit := ⟨"A", ⟨"M1", 0, false⟩, ()⟩
     let b : Def Unit := ⟨"A", ⟨"M2", 0, false⟩, ()⟩
-    (compile (fun _ => true) (fun _ d => some d.hdr.name) ⟨0, false⟩ [a, b]) = [Ev.emitted "M2" "A" "M2"] := by
+    (compile (fun _ => true) (fun _ d => some d.hdr.name) ⟨0, false⟩ [a, b]) =
+      [Ev.emitted "M2" "A" "M2", Ev.replWarn "M1" "A"] := by
   decide
 
 /-- one definition's event, given the state its module is generated with -/
